@@ -65,11 +65,13 @@ def log(*ev):
 class _Instrumented(object):
     FLAVOUR = None
 
-    def _setup(self, ident, fail_after, fail_kind, beat):
+    def _setup(self, ident, fail_after, fail_kind, beat, idle=False, churn=False):
         self.ident = ident
         self.fail_after = fail_after
         self.fail_kind = fail_kind
         self.beat = beat
+        self.idle = idle          # suspend on an awaitable nothing else references instead of beating
+        self.churn = churn        # produce cyclic garbage on every beat (makes the collector run)
         aio, tr = _loops()
         log("Constructed", ident, type(self).__name__, self.FLAVOUR, aio, tr)
         weakref.finalize(self, log, "Finalized", ident)
@@ -89,14 +91,24 @@ class _Instrumented(object):
         return None
 
 
+def _garbage():
+    for _ in range(300):
+        cyc = []
+        cyc.append(cyc)
+
+
 def _make_run(flavour):
     if flavour == "threading":
         def run(self):
             aio, tr = _loops()
             log("Start", self.ident, flavour, aio, tr)
             t0 = time.monotonic()
+            if self.idle:
+                threading.Event().wait()
             while self.fail_after is None or time.monotonic() - t0 < self.fail_after:
                 log("Step", self.ident)
+                if self.churn:
+                    _garbage()
                 time.sleep(self.beat)
             return self._end()
         return run
@@ -108,8 +120,15 @@ def _make_run(flavour):
         log("Start", self.ident, flavour, aio, tr)
         t0 = time.monotonic()
         try:
+            if self.idle:
+                if flavour == "trio":
+                    await trio.sleep_forever()
+                else:
+                    await asyncio.Future()       # the run-forever idiom: nothing else references this future
             while self.fail_after is None or time.monotonic() - t0 < self.fail_after:
                 log("Step", self.ident)
+                if self.churn:
+                    _garbage()
                 await sleep(self.beat)
             return self._end()
         except cancelled:
@@ -146,9 +165,9 @@ def _mk_pool(flavour, flavour_mod):
     class SPool(PlainPool):
         FLAVOUR = flavour
 
-        def __init__(self, ident=0, fail_after=None, fail_kind=None, beat=0.02):
+        def __init__(self, ident=0, fail_after=None, fail_kind=None, beat=0.02, idle=False, churn=False):
             self._demand = 0.0
-            _Instrumented._setup(self, ident, fail_after, fail_kind, beat)
+            _Instrumented._setup(self, ident, fail_after, fail_kind, beat, idle, churn)
 
         _end = _Instrumented._end
         run = _make_run(flavour)
@@ -161,9 +180,9 @@ def _mk_deco(flavour, flavour_mod):
     class SDeco(PoolDecorator):
         FLAVOUR = flavour
 
-        def __init__(self, target, ident=0, fail_after=None, fail_kind=None, beat=0.02):
+        def __init__(self, target, ident=0, fail_after=None, fail_kind=None, beat=0.02, idle=False, churn=False):
             super().__init__(target)
-            _Instrumented._setup(self, ident, fail_after, fail_kind, beat)
+            _Instrumented._setup(self, ident, fail_after, fail_kind, beat, idle, churn)
             log("Target", ident, getattr(target, "ident", None))
 
         _end = _Instrumented._end
@@ -177,9 +196,9 @@ def _mk_ctrl(flavour, flavour_mod):
     class SCtrl(Controller):
         FLAVOUR = flavour
 
-        def __init__(self, target, ident=0, fail_after=None, fail_kind=None, beat=0.02):
+        def __init__(self, target, ident=0, fail_after=None, fail_kind=None, beat=0.02, idle=False, churn=False):
             super().__init__(target)
-            _Instrumented._setup(self, ident, fail_after, fail_kind, beat)
+            _Instrumented._setup(self, ident, fail_after, fail_kind, beat, idle, churn)
             log("Target", ident, getattr(target, "ident", None))
 
         _end = _Instrumented._end
